@@ -479,6 +479,25 @@ func (m *c16Mut) mutSig(lb string) {
 	m.add("mut=sig:"+k, benign)
 }
 
+// mutSigBenign removes one vote the way real commits lack votes: absent, or an honest nil vote.
+func (m *c16Mut) mutSigBenign(lb string) {
+	t := m.t
+	c := m.h.Commit
+	i := rapid.IntRange(0, len(c.Signatures)-1).Draw(t, lb+".idx")
+	key, known := m.knownKey(m.h.ValidatorSet.Validators[i])
+	if known && rapid.IntRange(0, 3).Draw(t, lb+".nil") == 0 {
+		ts := c.Signatures[i].Timestamp
+		if ts.IsZero() {
+			ts = m.h.RawHeader.Time
+		}
+		c.Signatures[i] = m.env.signSig(m.h.RawHeader.ChainID, c.Height, c.Round, c.BlockID, core.BlockIDFlagNil, ts, key, nil)
+		m.add("mut=sig:nil-vote", true)
+		return
+	}
+	c.Signatures[i] = core.NewCommitSigAbsent()
+	m.add("mut=sig:drop", true)
+}
+
 func (m *c16Mut) mutVals(lb string) {
 	t := m.t
 	vals := cloneVals(m.h.ValidatorSet.Validators)
